@@ -282,7 +282,7 @@ def frame_elements(kind, x0, y0, x1, y1):
 
 def gen_arrays(rep, tier):
     rng = rep.rng
-    nrand = 90 if tier == 'quick' else 1500
+    nrand = 45 if tier == 'quick' else 1500
     out = []
     # small fixed corpus: empty, all-missing, single point, horizontal / vertical line, far outside
     out.append(('point', 'float64', [], 0, 'empty'))
